@@ -55,6 +55,8 @@ type Case struct {
 	// middleware does), installs that as the request's body stream and collects it with BodyE(); what the connection's
 	// stream itself returned is recorded underneath the wrapper
 	Wrap bool `json:"wrap,omitempty"`
+	// Expect: the upload announces Expect: 100-continue (the server builds the body stream on another path, after the interim response)
+	Expect bool `json:"expect,omitempty"`
 }
 
 // expander doubles every byte of r.
@@ -107,6 +109,9 @@ func build(cs Case) (stream []byte, body []byte, firstLen int) {
 	body = wire.Body(cs.Len)
 	var w bytes.Buffer
 	w.WriteString("POST /upload HTTP/1.1\r\nHost: h\r\nX-Id: up\r\n")
+	if cs.Expect {
+		w.WriteString("Expect: 100-continue\r\n")
+	}
 	if !cs.Chunked {
 		fmt.Fprintf(&w, "Content-Length: %d\r\n\r\n", cs.Len)
 		w.Write(body)
@@ -296,6 +301,9 @@ func (w *worker) exec(c *mc.Ctx, cs Case) {
 		}
 		if cs.Wrap {
 			enc += "|via-wrapping-stream"
+		}
+		if cs.Expect {
+			enc += "|expect-100-continue"
 		}
 		c.Violate(fmt.Sprintf("%s|%s|limit=%s|stop=%s", kind, enc, limit, stopClass(cs)), msg, cs)
 	}
@@ -519,6 +527,11 @@ func cases(thorough bool) []Case {
 								if mb == 0 && rs == 4096 && stop == -1 {
 									cs.Wrap = true
 									out = append(out, cs)
+									cs.Wrap = false
+								}
+								if mb == 0 && rs == 4096 {
+									cs.Expect = true
+									out = append(out, cs)
 								}
 							}
 							// the peer closes inside the message: every truncation point after the header block
@@ -607,6 +620,9 @@ func cases(thorough bool) []Case {
 								}
 								if mb == 0 && rs == 4096 && stop == -1 {
 									out = append(out, Case{Len: n, Chunked: ch != nil, Chunks: ch, Trailer: tr, ReadSize: rs, Stop: stop, Seg: seg, Wrap: true})
+								}
+								if mb == 0 && rs == 4096 {
+									out = append(out, Case{Len: n, Chunked: ch != nil, Chunks: ch, Trailer: tr, ReadSize: rs, Stop: stop, Seg: seg, Expect: true})
 								}
 							}
 							if mb == 0 && !tr {
